@@ -125,6 +125,14 @@ def fixed_schemas():
     def cur(p):
         return {"mappings": {"properties": p}}
     return [
+        # multi-fields whose ORDER matters if definitions leak between siblings: a term-level sub-field first, then
+        # an analysed one; a sub-field without a type of its own (it has its parent's) after one that changes it
+        cur({"title": {"type": "string", "fields": {"raw": {"type": "string", "index": "not_analyzed"},
+                                                     "fr": {"type": "string", "analyzer": "french"}}}}),
+        cur({"n": {"type": "nested", "properties": {"lastname": {"type": "text", "fields": {
+            "raw": KW, "english": {"analyzer": "english"}, "raw2": KW, "plain": {"type": "text"}}}}}}),
+        cur({"o": {"properties": {"city": {"type": "keyword", "fields": {
+            "words": TX, "lower": {"normalizer": "lc"}, "w2": TX, "lower2": {"normalizer": "lc"}}}}}}),
         # F12 as first suspected (DESIGN): nested -> object -> leaf.  NOT a defect (see report)
         cur({"n1": {"type": "nested", "properties": {"o": {"type": "object", "properties": {"h": KW}}}}}),
         # F12, the real one: the only children of nested n1 lead to a deeper nested field
